@@ -293,15 +293,6 @@ theorem newEpochsContext_ok {H : ByteArray → ByteArray} {cfg : Cfg} (ok : CfgO
     | panic => rw [hp] at h; cases h
     | outOfFuel => rw [hp] at h; cases h
 
-theorem computeShufflingEpoch_epoch {H : ByteArray → ByteArray} {cfg : Cfg} (ok : CfgOK cfg) (vals : Array Val)
-    (mixes : Nat → ByteArray) (e : Nat) (hv : vals.size < 2 ^ 63) (se : ShufflingEpoch)
-    (h : computeShufflingEpoch H cfg vals mixes e = .ok se) : se.epoch = e := by
-  have := newShufflingEpoch_ok (H := H) ok vals (getSeed H cfg mixes e DOMAIN_BEACON_ATTESTER) e hv
-  unfold computeShufflingEpoch at h
-  rw [this] at h
-  injection h with h
-  rw [← h]
-
 /-- the epoch lookup of a context built by `NewEpochsContext`: the shuffling of the asked epoch for the previous,
 current and next epoch; an error (no panic) for every other epoch -/
 theorem ctx_getEpochComms {H : ByteArray → ByteArray} {cfg : Cfg} (ok : CfgOK cfg) (vals : Array Val)
@@ -397,14 +388,6 @@ theorem ctx_count_eq_spec {H : ByteArray → ByteArray} {cfg : Cfg} (ok : CfgOK 
   · intro hne
     unfold Ctx.getCommitteeCountPerSlot
     rw [hout hne]
-
-/-- the standing assumptions of the sampling theorems hold for the active set of any epoch with an active validator -/
-theorem sampleOK_active {H : ByteArray → ByteArray} (hH : ∀ x, (H x).size = 32) {cfg : Cfg}
-    (hsrc : cfg.SHUFFLE_ROUND_COUNT ≤ 255) (vals : Array Val) (hv : vals.size ≤ 2 ^ 40) (e : Nat)
-    (hne : 0 < (activeIndices vals e).size) : SampleOK H cfg vals (activeIndices vals e) :=
-  ⟨hH, hsrc, hne, by have := size_activeIndices_le vals e; omega, fun k hk =>
-    ((mem_activeIndices vals e _).mp (by
-      rw [← Array.getElem_toList (h := by simpa using hk)]; exact List.getElem_mem _)).1⟩
 
 /-- **`GetBeaconProposer` of a context built by `NewEpochsContext` is `get_beacon_proposer_index`** for every slot
 of the current epoch (the specification's loop, allowed at least 32 000 iterations, stops at that index).
